@@ -1,12 +1,19 @@
 (* C09 -- client correlates responses to requests strictly by message ID. *)
 From Coq Require Import ZArith List Bool.
 From Coq.Strings Require Import Byte.
-From SV Require Import Base.Bytes Base.Py Msg.Types Msg.Encode Sess.Model Sess.Drain Sess.Ids Sess.Total.
+From SV Require Import Base.Bytes Base.Py Msg.Types Msg.Encode Sess.Model Sess.Drain Sess.Ids Sess.Total Sess.IdsReach.
 Import ListNotations.
 Local Open Scope Z_scope.
 
 Theorem C09_invariant_initially : ids_inv (init Client).
 Proof. exact ids_inv_init. Qed.
+
+(* the invariant the theorems below assume holds in every state a client reaches, whatever the calls (API calls,
+   deliveries of any bytes, drains): the counter is at least 1, every id in progress is a positive id already
+   handed out, every search in progress is an operation in progress *)
+Theorem C09_invariant_in_every_reachable_state :
+  forall d cs, ids_inv (fst (run d (init Client) cs)).
+Proof. exact ids_inv_reachable. Qed.
 
 (* ids are positive, fresh, consecutive, and are the ids carried by the queued bytes *)
 Theorem C09_request_ids :
@@ -59,3 +66,4 @@ Print Assumptions C09_response_accepted_iff_in_progress.
 Print Assumptions C09_request_message_rejected.
 Print Assumptions C09_unknown_id_rejected.
 Print Assumptions C09_retirement.
+Print Assumptions C09_invariant_in_every_reachable_state.
